@@ -48,10 +48,19 @@ def check(chk, sc, out, path):
         m = model(out["src"], out["linear"])
         db = build_db(m, sc, out, path)
         sim = quiet(m.simulate, db, ir.Span(per(1), per(TN)), method="first_order", deviation=bool(sc["dev"]))
+        # the same simulation split into frames at the unanticipated shocks must give the same path
+        sim_split = quiet(m.simulate, db, ir.Span(per(1), per(TN)), method="first_order", deviation=bool(sc["dev"]), force_split_frames=True)
     except Exception as ex:
         chk.mismatch(tag + ":raised:" + type(ex).__name__, desc + ": raised %r" % (ex,), payload)
         return
     logv = set(out["logv"])
+    for j, n in enumerate(out["vars"]):
+        for k in range(1, TN + 1):
+            e = float(fr(path[k][j]))
+            g = state_of(n, logv, float(sim_split[n].get_data(per(k))[0, 0]))
+            if not abs(g - e) <= 1e-9 * max(1.0, abs(e)):
+                chk.mismatch(tag + ":split-frames", desc + ": with force_split_frames=True %s%s in period %d is %r, spec path %r" % ("log " if n in logv else "", n, k, g, e), payload)
+                return
     for j, n in enumerate(out["vars"]):
         for k in range(1, TN + 1):
             e = float(fr(path[k][j]))
